@@ -30,6 +30,26 @@ def run(tier, replay=None):
                 rid = f"{s['id']}.{reader}"
                 seqs[rid] = (s, reader)
                 rows.append([rid, 'W.stream', s['version'], s['dir'], reader, 'enc:' + key, names if reader == 'expect' else '-', stream])
+    # deterministic boundary sweep: [small, WARDEN_DATA(L), small] for every body length around the Wrath 2/3-byte header
+    # switch and the top of the 2-byte form, one key, both readers
+    key = bytes(rng.getrandbits(8) for _ in range(40)).hex()
+    for (version, d), vs in sorted(pool.items()):
+        small = sorted((v for v in vs if 8 < len(v['hex']) // 2 < 40 and not v.get('payloads')), key=lambda v: v['id'])[:1]
+        if not small:
+            continue
+        lim = S.max_body(version, d)
+        lens = [L for L in list(range(0x7FF6, 0x800A)) + list(range(0xFFEE, 0xFFFC)) if L <= lim - 2]
+        if tier == 'quick':
+            lens = [L for L in lens if 0x7FF9 <= L <= 0x8004 or L >= lim - 6]
+        for L in lens:
+            s = {'id': f'sweep.{version}.{d[0]}.{L}', 'version': version, 'dir': d, 'key': key,
+                 'frames': [small[0], S.warden_vector(corpus, version, d, L), small[0]]}
+            stream = ''.join(v['hex'] for v in s['frames'])
+            names = ','.join(v['object'] for v in s['frames'])
+            for reader in ('enum', 'expect'):
+                rid = f"{s['id']}.{reader}"
+                seqs[rid] = (s, reader)
+                rows.append([rid, 'W.stream', version, d, reader, 'enc:' + key, names if reader == 'expect' else '-', stream])
     ev = common.run_driver(binary, rows, 'c05', timeout=60)
     encrypted_equal_headers = 0
     for rid, (s, reader) in seqs.items():
